@@ -271,6 +271,24 @@ def _hs_group(part, rng, sis, exe, rundir):
                 chunks = chunks + [len(full) - sum(chunks)]
             lines.append("O %d %s %s" % (ci, full.hex(), ",".join(str(c) for c in chunks) if chunks else "-"))
             meta.append(("oom", data, "none", "oom-at-chunk-%d" % ci, chunks, se))
+    # one stream per group that negotiates descriptor passing: the first message carries descriptors (they arrive with its
+    # first byte), failing allocations are enumerated over the read that receives it
+    nf = rng.choice([1, 2, 3])
+    fmsg = wire.encode_message(rng.choice([1, 4]), [(1, Variant(b"o", b"/fd")), (2, Variant(b"s", b"com.example.Fd")), (3, Variant(b"s", b"M")),
+                                                     (9, Variant(b"u", nf)), (8, Variant(b"g", b"h" * nf))], b"h" * nf, list(range(nf)),
+                               serial=3, order=rng.choice("lB"), add_signature=False)
+    small2 = gen.encode(gen.rand_message(rng, maxdepth=1, mtype=4))
+    fdata = fmsg + small2
+    fse = msgoracle.StreamExpect(small2)
+    if wire.validate(fmsg, nf).kind == wire.VALID and fse.terminal == "clean":
+        afd = AUTH.replace(b"BEGIN", b"NEGOTIATE_UNIX_FD\r\nBEGIN")
+        ffull = afd + fdata
+        # the read under fault ends inside the descriptor-carrying message: completing a message under fault is the
+        # library part of C14's business (and runs into the descriptor hand-over finding recorded there)
+        cut = rng.choice([1, 15, 16, 17, len(fmsg) // 2, len(fmsg) - 1])
+        chunks = [len(afd), cut] + ([len(fdata) - cut] if cut < len(fdata) else [])
+        lines.append("O F %d 1 1 %s %s" % (nf, ffull.hex(), ",".join(str(c) for c in chunks)))
+        meta.append(("oomfd", fdata, "none", "oom-fd-at-chunk-1", chunks, fse))
     res = hrun.run_cases(exe, lines, env={"VERIF_RUNDIR": rundir}, per_batch_timeout=900)
     ref = None
     for (what, data, tail, kind, chunks, se), rr in zip(meta, res):
@@ -285,6 +303,26 @@ def _hs_group(part, rng, sis, exe, rundir):
             part.violation("%s:%s:%s" % (PROP, cls[0], cls[1]), "server connection crashed", dict(wit, stderr=c.get("stderr", "")[-2000:]))
             continue
         part.sig("hs", len(se.frames), se.terminal, kind)
+        if what == "oomfd" and "crash" not in rr:
+            # no fault-free main-loop reference for this stream: the harness's own fault-free run is the reference; it must
+            # have delivered both messages with live descriptors
+            part.count("hs-oom-fd-cases")
+            part.count("hs-oom-runs", rr.get("runs", 0))
+            part.count("hs-oom-faults-fired", rr.get("fired", 0))
+            part.count("hs-oom-connection-dropped-during-handshake(not judged)", rr.get("dropped_in_handshake", 0))
+            r0 = rr.get("ref", {})
+            m0 = r0.get("msgs", [])
+            if r0.get("auth") != 1 or not r0.get("connected") or len(m0) != 2 or any(v == ["h", 0] for v in (m0[0].get("body") or []) if isinstance(v, list)):
+                part.violation("%s:hs-fd-reference-wrong" % PROP, "fault-free run did not deliver the descriptor-carrying message and its successor: "
+                               "auth=%s connected=%s messages=%d" % (r0.get("auth"), r0.get("connected"), len(m0)), wit)
+            for bad in rr.get("bad", []):
+                o = bad["out"]
+                part.violation("%s:hs-oom-changes-stream:descriptors:%s" % (PROP, "lost-or-corrupt" if len(o["msgs"]) < len(m0) or not o["connected"] else "differs"),
+                               "blocking iteration: with allocation %d (burst of %d) failing while the read that carries the descriptors is "
+                               "processed the server receives %d message(s), connected=%s; without fault %d, connected=%s"
+                               % (bad["k"], bad["nf"], len(o["msgs"]), o["connected"], len(m0), r0.get("connected")), dict(wit, k=bad["k"], nfail=bad["nf"]))
+                break
+            continue
         if what == "oom":
             part.count("hs-oom-cases")
             part.count("hs-oom-runs", rr.get("runs", 0))
@@ -385,6 +423,7 @@ def run(tier, seed, replay=None, scale=1.0):
     r.require("hs-partitions-compared", 50 if scale >= 1 else 1)
     r.require("hs-blocking-partitions-compared", 50 if scale >= 1 else 1)
     r.require("hs-oom-faults-fired", 200 if scale >= 1 else 1)
+    r.require("hs-oom-fd-cases", 20 if scale >= 1 else 1)
     r.require("daemon-fd-streams", 50 if scale >= 1 else 1)
     r.assumptions = ["read boundaries equal chunk boundaries because the server loop runs to idle after every write (handshake mode)",
                      "oracle framing = vf/wire.py"]
